@@ -293,6 +293,36 @@ reg(
   "eleven recorded flex deviations are KNOWN-FINDINGs.",
 )
 
+reg(
+  "C10",
+  "property-based metamorphic testing (Hypothesis + enumeration of every batchable field by introspection): a Model whose field holds b rows vs unbatched put_model of MjModels edited to hold each row",
+  "All array('*') fields of Model, Option and Statistic (122; 17 render-only skipped explicitly) are varied directly, or consistently through mj_setConst, on a rich generated model in which the field has a live user, with "
+  "nworld in {2,3,4,6}, batch sizes 1/divisors/nworld, both assignment styles, all integrators/solvers/cones, dense and sparse, sleeping on in a quarter of the Newton cases: world i of the batch must reproduce the unbatched "
+  "run of row i mod b after forward and two steps (state, kinematics, forces, every sensor, contacts with parameters, counts, niter, sleep counters); per-field coverage reported as checked / inert / skipped.",
+  "Short horizons, same state in all worlds (cross-world state independence is C09); a field counts as exercised only when its effect is measurably visible; Newton+sparse compared to solver accuracy; two KNOWN-FINDINGs (static geom pose fields, tolerance with sleeping).",
+)
+reg(
+  "C33",
+  "property-based differential testing (Hypothesis) of set_const / set_const_0 / set_const_fixed / set_const_spring against mujoco.mj_setConst, per world, on batched Model fields",
+  "Random articulated models with tendons, equalities, dampratio actuators, cameras and lights get per-world (or shared) edits of masses, inertias, body and inertial frames, qpos0/qpos_spring, armature, eq_data, tendon spring data "
+  "and gains: each documented derived field must match mj_setConst on an MjModel holding that world's values, the Data state must be bitwise preserved, and with restore the position-dependent Data fields must match a fresh evaluation.",
+  "float32 vs float64 (1e-4, 1e-3 for inverse-weight quantities); no mocap or flex; ipos/iquat edits only on non-simple bodies and pose edits only on non-static bodies (documented restrictions); four KNOWN-FINDINGs.",
+)
+reg(
+  "C34",
+  "property-based differential testing (Hypothesis): brute-force and BVH ray casts vs mujoco.mj_ray on identical float32 poses, plus the metamorphic relation BVH path == brute force",
+  "Random scenes of all eight geom types on static, mocap and jointed bodies with groups and transparent geoms/materials, 1-2 worlds; 64 structured rays per world (toward, through, inside, grazing, axis-parallel, away, random; "
+  "unit or scaled) under group-mask, static-flag and body-exclusion filters through rays(), ray() and the render-context BVH path: dist, geomid and normal judged per ray with conditioning-aware tolerances.",
+  "Silhouette rays (reference flips under 1e-4 perturbations) and rays parallel to a plane are boundary-skipped; two KNOWN-FINDINGs in the BVH path (hfield base/sides, mesh bounds) are labelled per ray, not skipped.",
+)
+reg(
+  "C35",
+  "property-based differential testing (Hypothesis), per pixel: an independently written MuJoCo camera model + mujoco.mj_ray vs mjw.render depth and segmentation buffers and their getters",
+  "Random 1-8-geom scenes of all geom types with rendered and unrendered groups; 1-2 perspective, intrinsic or orthographic cameras on world, mocap or free bodies at 4x3 to 48x32 in 1 or 3 worlds with different poses, "
+  "culling on/off, precomputed or in-kernel rays: every pixel stable under +-0.25 px jitter compared for planar z-depth and (geomid, type); get_depth/get_segmentation compared with the raw buffers.",
+  "RGB, lighting, textures, flex and splats are not judged; silhouette pixels skipped and counted; three KNOWN-FINDINGs (orthographic cameras, hfield base/sides, mesh bounds) labelled per pixel.",
+)
+
 NOT_APPLICABLE = {}
 
 
